@@ -217,7 +217,7 @@ impl Store {
         };
 
         // Load context registrations
-        for frame in store.read_sync(None, None, Some(ZERO_CONTEXT)) {
+        for frame in store.iter_frames(Some(ZERO_CONTEXT), None) {
             if frame.topic == "xs.context" {
                 store.contexts.write().unwrap().insert(frame.id);
             }
